@@ -277,9 +277,14 @@ func runSolver(sp solverSpec, file string, timeoutSec int, seed int) (answer, ou
 	_ = cmd.Run()
 	secs = time.Since(t0).Seconds()
 	output = out.String()
-	first := strings.TrimSpace(output)
-	if i := strings.IndexByte(first, '\n'); i >= 0 {
-		first = strings.TrimSpace(first[:i])
+	first := ""
+	for _, ln := range strings.Split(output, "\n") {
+		ln = strings.TrimSpace(ln)
+		if ln == "" || strings.HasPrefix(ln, "WARNING") || strings.HasPrefix(ln, "(warning") {
+			continue
+		}
+		first = ln
+		break
 	}
 	switch first {
 	case "unsat", "sat", "unknown":
